@@ -361,6 +361,8 @@ _FACTS = (" Regenerated tie: on every run a small go/ast translator (harness `fa
 for _pid, _what, _thms in [
     ("C05", "the serialization attribute's prefix, part limit and key table (ParseSerializationAttr)", "ser_prefix_is_models, ser_parts_limit_is_models, ser_keys_are_models"),
     ("C17", "ParseSerializationAttr's prefix, part limit and key table and GetFieldSlotIndex's switch", "ser_*_is_models, slot_switch_is_models; Props.C17.slotIndexOf_eq_table and setField_getField relate the tables to the model's functions"),
+    ("C04", "convertStringToXSDValue's switch: the case lists of datatypes and the boolean spellings", "xsd_cases_are_models, xsd_bool_false_is_models, xsd_bool_true_is_models; Props.C04.convert_bool_by_table, isIntType_by_table, convert_other_is_string relate the tables to the model's convert"),
+    ("C10", "convertStringToXSDValue's case lists and boolean spellings", "xsd_*_is_models"),
     ("C19", "the bound on alternate links", "alternate_hops_is_models"),
     ("C12", "the bound on alternate links and the depth of every tree the merklizer creates", "alternate_hops_is_models, tree_depth_is_models"),
     ("C09", "the size limit of a status response", "status_limit_is_models"),
